@@ -55,6 +55,11 @@ CHECKS["C10"] = dict(engine="conductor-executor", cat="exploration", ref="DESIGN
    text="All delivery words of length <=4 (quick) / <=5 (thorough) over soft and firm blocks of three heights for each commit level, plus random longer words with duplicates, stale and skipped heights, sessions that start with soft ahead of firm, look-ahead 1-5 and delayed rollup responses; the oracle checks one ExecuteBlock per height in gap-free increasing order, each on the previous height's returned block, monotone commitments with firm <= soft, and firm commitments naming the block executed from the same height.",
    note="the sequencer and Celestia reader tasks are replaced by the harness delivering into the executor's channels; quiescence between deliveries is RPC inactivity with a bounded wait; watchdog words are counted and make the run inconclusive beyond 2%")
 
+CHECKS["C17"] = dict(engine="vh-wire", cat="exploration", ref="DESIGN.md §5 C17",
+   technique="runtime monitoring / sanitizer-style: panic monitor + round-trip and re-verification oracle over structure-aware protobuf mutants of valid encodings fed to the public astria-core decoders; thorough tier adds valgrind memcheck on the release binary",
+   text="Valid transactions (8 action kinds), sequencer blocks, filtered blocks, Celestia metadata and rollup-data entries and brotli blobs are built with the crate's own builders and mutated at every nesting level (field deletion / duplication / reordering, varints to boundary values and +-1, corrupted length prefixes, 32-byte elements appended or removed, byte flips, truncation at every offset, splices, random bytes; blobs also re-compressed after mutation); every decoder entry point runs under a panic monitor, accepted values must re-encode to the same bytes and their derived artefacts must verify again.",
+   note="the service wrappers (CheckTx, conductor blob fetch) are exercised by the ChainSim CheckTx path and the C09 pipeline with junk blobs; Miri is not used here (ed25519 and brotli are too slow under the interpreter for a useful slice)")
+
 def main():
     hooks = subprocess.run(["git", "-C", "/repo", "log", "--format=%h", "--grep=^verif hooks:"], capture_output=True, text=True).stdout.split()
     m = {
@@ -74,6 +79,7 @@ def main():
        {"name": "composer-bundles", "path": "harness/composer/executor.rs", "serves_properties": ["C16"], "kind_free_text": "in-crate test-only child module of astria_composer::executor (feature verif)"},
        {"name": "relayer-batching", "path": "harness/relayer/write.rs", "serves_properties": ["C12"], "kind_free_text": "in-crate test-only child module of astria_sequencer_relayer::relayer::write (feature verif)"},
        {"name": "conductor-executor", "path": "harness/conductor/executor.rs", "serves_properties": ["C10"], "kind_free_text": "in-crate test-only child module of astria_conductor::executor (feature verif)"},
+       {"name": "vh-wire", "path": "harness/ext/vh-wire", "serves_properties": ["C17"], "kind_free_text": "external harness binary on the public astria-core decoders"},
        {"name": "chainsim", "path": "harness/seq/app", "serves_properties": ["C01","C02","C03","C04","C05","C06","C07","C14","C15","C18"], "kind_free_text": "in-crate multi-node ABCI driver inside astria_sequencer::app (feature verif) + offline Python oracles"},
      ],
      "checks": [],
